@@ -86,6 +86,35 @@ Section Keys.
     apply G, reg0_keys_ok.
   Qed.
 
+  (* ... and so do the tags: one binding per tag (used by the tag-schema theorems) *)
+  Lemma handle_tags g q :
+    g_tags (fst (handle H sj main other p g q)) = g_tags g \/
+    (exists rf d, g_tags (fst (handle H sj main other p g q)) = insert rf d (g_tags g)) \/
+    (exists f, g_tags (fst (handle H sj main other p g q)) = filter f (g_tags g)).
+  Proof.
+    unfold handle, open_session.
+    repeat match goal with
+           | |- context [match ?x with _ => _ end] => destruct x
+           | |- context [if ?x then _ else _] => destruct x
+           end; cbn; eauto.
+  Qed.
+
+  Theorem reachable_tags_unique ob qs :
+    NoDup (keys (g_tags (fold_left (fun g q => fst (handle H sj main other p g q)) qs (reg0 ob)))).
+  Proof.
+    assert (G : forall g, NoDup (keys (g_tags g)) ->
+              NoDup (keys (g_tags (fold_left (fun g q => fst (handle H sj main other p g q)) qs g)))).
+    { induction qs as [|q qs IH]; intros g Hk; cbn; auto. apply IH.
+      destruct (handle_tags g q) as [E|[(rf & d & E)|[f E]]]; rewrite E; auto.
+      - now apply keys_insert_nodup.
+      - clear - Hk. unfold keys in *. induction (g_tags g) as [|[k v] m IHm]; [constructor|].
+        cbn [map fst] in Hk. inversion Hk as [|? ? Hn Hm]; subst. cbn [filter].
+        destruct (f (k, v)); [|auto]. cbn [map fst]. constructor; auto.
+        intro Hin. apply Hn. clear - Hin. induction m as [|[k1 v1] m IH]; [exact Hin|].
+        cbn [filter] in Hin. destruct (f (k1, v1)); cbn [map fst In] in *; tauto. }
+    apply G. constructor.
+  Qed.
+
   (* ---------- the referrers of a subject as C15 items ---------- *)
   Variable atype : str -> str.      (* artifact type of a manifest (JSON decoding: external) *)
 
